@@ -451,7 +451,8 @@ Section Gen.
         end
     | ASpread v r =>
         let '(st1, o) := wrapg L_Cond (pg_level v) (gen_core v st) in
-        gen_arr r st1 (s ++ lit "]," ++ g_val o ++ lit ",[") true false items (spread ++ [PRes (g_pas o) (g_calc o)])
+        (* the operand goes through the helper Q.d (a string spreads into its characters) *)
+        gen_arr r st1 (s ++ lit "],Q.d(" ++ g_val o ++ lit "),[") true false items (spread ++ [PRes (g_pas o) (g_calc o)])
     | AHole r =>
         let s' := s ++ (if next_comma then lit "," else []) ++ lit "," in
         match spread with
